@@ -68,6 +68,10 @@ def judge_scripts(scripts, devs, custom="<<>>", setup=None, roundtrip=False):
             continue
         r0 = [q for q in outs if not q[0]][0]
         refs.append({"v": r0[1], "why": r0[2], "irr": r0[5], "note": sorted(note), "devpaths": len(outs) > 1})
+        if I._slow_events[0] >= 5:
+            # non-termination is established (reported below): do not spend the watchdog limit on every further input
+            cnt["skipped_after_hangs"] = cnt.get("skipped_after_hangs", 0) + 1
+            continue
         o = I.run_parse(p, data, rt=roundtrip)
         cnt["parses"] += 1
         ref = [q for q in outs if not q[0]][0]
